@@ -131,6 +131,20 @@ def split(spec):
     return node.src[:i], node.src[i + len(HOLE):]
 
 
+def covers(cls, parts):
+    """True iff the union of the range lists in parts contains the character class cls
+    (work partitions by first character must not lose members of the class)"""
+    un = [r for p in parts for r in p]
+    for a, b in CLASSES[cls]:
+        x = a
+        while x <= b:
+            hit = [r for r in un if r[0] <= x <= r[1]]
+            if not hit:
+                return False
+            x = max(r[1] for r in hit) + 1
+    return True
+
+
 def make(pre, post, cls, L, optsd, oracle, ml=False, lmin=0, twin=False, node_of=None,
          accept_exit=False, splice=True, win=None, first_ranges=None, exc_tag=None):
     """oracle(h0, doc, result_flat, diags) -> None / failure message.
@@ -182,6 +196,10 @@ def make(pre, post, cls, L, optsd, oracle, ml=False, lmin=0, twin=False, node_of
         with D.NoTracing():
             cons = [z3.Or(*[z3.And(D.z3var(o) >= a, D.z3var(o) <= b) for a, b in ranges])
                     for o in hcodes]
+            if first_ranges is not None and hcodes:
+                # work partition: this item only covers strings whose first character lies here
+                cons.append(z3.Or(*[z3.And(D.z3var(hcodes[0]) >= a, D.z3var(hcodes[0]) <= b)
+                                    for a, b in first_ranges]))
             okc = D.SymbolicBool(z3.And(*cons)) if cons else True
         if not okc:
             return D.SKIP
